@@ -482,7 +482,7 @@ def main():
     # leg 1b: yield languages of corresponding non-terminals (grammar as written), witnesses embedded and replayed
     pairs = nt_pairs(G, ref)
     ctx = contexts(G)
-    NN = 7 if th else 6
+    NN = 8 if th else 7
     _TL.update(G=G, ref=ref, Tb=Tb, known_keys=known_keys)
     ntjobs = [(a, b, nobf, n, d) for (a, b, nobf) in pairs for n in range(0, NN + 1) for d in 'AB']
     t_q = time.time()
